@@ -5,7 +5,13 @@
 (*             input kinds; per kind the relative deviation (units 1e-15, clamped) of every *)
 (*             returned value from the driver's own product of distributions[i].pdf(x_i,    *)
 (*             given = x[cond[i]]) -- PdfStep of Rosenblatt.tla on measured values --       *)
-(*             and the sign of every value                                                 *)
+(*             and the sign of every value.  Kinds named kept_...: the points are passed    *)
+(*             ONE PER CALL (row vector, list, (1, n_dim) array, int list) and whatever a    *)
+(*             call returned is kept as returned until every point of every spelling has     *)
+(*             been evaluated (in some records with a marginal_pdf / marginal_cdf / cdf call *)
+(*             on the same model in between); rel is read from the kept results at the END:  *)
+(*             the value a caller holds for a point is the density at THAT point, whatever   *)
+(*             was evaluated afterwards (relnow, read right after the call, is not judged)   *)
 (*  "integral" model.cdf / marginal_pdf / marginal_cdf at one point against an independent  *)
 (*             one-dimensional (3-D: two-dimensional) quadrature over the CONDITIONAL cdf   *)
 (*             (probabilities scaled 1e9, densities 1e8)                                    *)
